@@ -96,6 +96,128 @@ theorem reduce_roundtrip (s : State) : (reduceFixed s).norm = (observe s).norm :
 theorem reduce_roundtrip_history (s : State) (ops : List Op) :
     (reduceFixed (run s ops)).norm = (observe (run s ops)).norm := reduce_roundtrip _
 
+/-! ### pickling / deep-copying / sending to another process *inside* a history -/
+
+theorem slotEntries_obs (sn : Snap) : ∀ (leaves : List (List String × LeafMeta × Slot)) (i : Nat),
+    (slotEntries i leaves).map (fun e => (e.key, (⟨e.lm, e.ref.bytes (some sn)⟩ : Leaf))) = sn.readAll i leaves := by
+  intro leaves
+  induction leaves with
+  | nil => intro i; rfl
+  | cons p ps ih =>
+    intro i
+    obtain ⟨k, m, sl⟩ := p
+    simp only [slotEntries, Snap.readAll, List.map_cons, ih (i + 1)]
+    rfl
+
+theorem slotEntries_keys : ∀ (leaves : List (List String × LeafMeta × Slot)) (i : Nat),
+    (slotEntries i leaves).map (fun e => (e.key, e.lm)) = leaves.map (fun p => (p.1, p.2.1)) := by
+  intro leaves
+  induction leaves with
+  | nil => intro i; rfl
+  | cons p ps ih => intro i; obtain ⟨k, m, sl⟩ := p; simp [slotEntries, ih (i + 1)]
+
+theorem slotEntries_aligned : ∀ (leaves : List (List String × LeafMeta × Slot)) (i : Nat),
+    refsAligned i (slotEntries i leaves) = true := by
+  intro leaves
+  induction leaves with
+  | nil => intro i; rfl
+  | cons p ps ih => intro i; obtain ⟨k, m, sl⟩ := p; simp [slotEntries, refsAligned, ih (i + 1)]
+
+theorem leavesFirst_perm (es : List Entry) : (leavesFirst es).Perm es := by
+  unfold leavesFirst
+  exact List.filter_append_perm (fun e : Entry => decide (e.key.length ≤ 1)) es
+
+/-- the tensordict a history goes on with after `pickle.loads(pickle.dumps(td))` / `copy.deepcopy(td)` / a trip to another
+    process shows exactly what the reducer sends — same node metadata, the same leaves, the root's own leaves iterated first … -/
+theorem reduce_op_observe (s : State) :
+    (observe (step s .reduce)).nodes = (reduceFixed s).nodes
+      ∧ ((observe (step s .reduce)).leaves).Perm (reduceFixed s).leaves := by
+  have hown : observe (⟨⟨s.td.nodes, s.td.entries.map fun e => { e with ref := Ref.own (e.ref.bytes s.snap) }⟩, none⟩ : State) = observe s := by
+    simp [observe, List.map_map, Function.comp_def, Ref.bytes]
+  unfold reduceFixed
+  cases hs : s.snap with
+  | none =>
+    simp only [step, hs]
+    rw [hs] at hown
+    rw [hown]
+    exact ⟨by first | rfl | trivial, List.Perm.refl _⟩
+  | some sn =>
+    simp only [step, hs]
+    by_cases hd : describes sn s.td = true
+    · simp only [hd, if_true, observe, rebuildSnap]
+      refine ⟨by first | rfl | trivial, ?_⟩
+      rw [← slotEntries_obs sn sn.leaves 0]
+      exact (leavesFirst_perm _).map _
+    · simp only [hd, Bool.false_eq_true, if_false]
+      rw [hs] at hown
+      rw [hown]
+      exact ⟨by first | rfl | trivial, List.Perm.refl _⟩
+
+/-- … hence, for **every** state and every history before it, the content at the moment of the call (device up to `None`≈cpu;
+    key order is not part of tensordict equality) … -/
+theorem reduce_op_roundtrip (s : State) :
+    (observe (step s .reduce)).norm.nodes = (observe s).norm.nodes
+      ∧ ((observe (step s .reduce)).leaves).Perm (observe s).leaves := by
+  obtain ⟨h1, h2⟩ := reduce_op_observe s
+  have h3 := reduce_roundtrip s
+  refine ⟨?_, ?_⟩
+  · have := congrArg Obs.nodes h3
+    simp only [Obs.norm] at this ⊢
+    rw [h1]; exact this
+  · have := congrArg Obs.leaves h3
+    simp only [Obs.norm] at this
+    rw [← this]; exact h2
+
+/-- … and when the root's leaves already came first it is a well-formed starting point for the rest of the history: it arrives
+    consolidated on a storage of its own and its snapshot is current, so further in-place writes, picklings and copies take
+    the fast path again. -/
+theorem reduce_op_fresh (s : State)
+    (hord : ∀ sn, s.snap = some sn → leavesFirst (slotEntries 0 sn.leaves) = slotEntries 0 sn.leaves) :
+    SnapFresh (step s .reduce) := by
+  intro sn' hsn'
+  cases hs : s.snap with
+  | none => simp [step, hs] at hsn'
+  | some sn =>
+    simp only [step, hs] at hsn' ⊢
+    by_cases hd : describes sn s.td = true
+    · simp only [hd, if_true, Option.some.injEq] at hsn' ⊢
+      subst hsn'
+      rw [hord sn hs]
+      have hd' := hd
+      simp only [describes, Bool.and_eq_true, beq_iff_eq] at hd'
+      obtain ⟨⟨⟨_, hk⟩, hl⟩, _⟩ := hd'
+      have hn : (slotEntries 0 sn.leaves).map (fun e => e.lm.nbytes) = s.td.entries.map (fun e => e.lm.nbytes) := by
+        have h1 := congrArg (List.map fun (p : List String × LeafMeta) => p.2.nbytes) (slotEntries_keys sn.leaves 0)
+        have h2 := congrArg (List.map fun (p : List String × LeafMeta) => p.2.nbytes) hk
+        simp only [List.map_map, Function.comp_def] at h1 h2
+        rw [h1, h2]
+      simp only [describes, Bool.and_eq_true, beq_iff_eq]
+      exact ⟨⟨⟨trivial, (slotEntries_keys sn.leaves 0).symm⟩, by rw [hn]; exact hl⟩, slotEntries_aligned sn.leaves 0⟩
+    · simp [hd] at hsn'
+
+/-- when a sub-tensordict came before a leaf, the rebuilt tensordict iterates in another order than its own metadata were laid
+    out in: it keeps the storage but is **not** judged current (its next pickling takes the slow path and drops the storage);
+    the content is right all along. `{"n": {"x": …}, "a": …}`: consolidate, pickle, pickle. -/
+theorem reduce_op_reorders_counterexample :
+    let m : LeafMeta := ⟨"torch.uint8", 1, [2]⟩
+    let s0 : State := ⟨⟨[([], ⟨[2], none, none, false⟩), (["n"], ⟨[2], none, none, false⟩)],
+      [⟨["n", "x"], m, .own [1, 2]⟩, ⟨["a"], m, .own [3, 4]⟩]⟩, none⟩
+    let c := step s0 (.consolidate false)
+    let r1 := step c .reduce
+    let r2 := step r1 .reduce
+    SnapFresh c ∧ (∃ sn, r1.snap = some sn ∧ describes sn r1.td = false) ∧ r2.snap = none
+      ∧ (observe r1).leaves = [(["a"], ⟨m, [3, 4]⟩), (["n", "x"], ⟨m, [1, 2]⟩)]
+      ∧ (observe r2).leaves = (observe r1).leaves := by
+  refine ⟨?_, ?_, ?_, ?_, ?_⟩
+  · intro sn h
+    simp only [step, Option.some.injEq] at h
+    subst h
+    decide
+  · exact ⟨_, rfl, by decide⟩
+  · decide
+  · decide
+  · decide
+
 /-- the pinned reducer is right exactly as long as the snapshot is fresh -/
 theorem reduce_roundtrip_pinned (s : State) (h : SnapFresh s) : (reducePinned s).norm = (observe s).norm := by
   unfold reducePinned
